@@ -7,7 +7,7 @@ git -C /repo worktree add -q --detach "$wt" HEAD || exit 2
 out=$(mktemp -d /dev/shm/vsout_XXXXXX)
 trap 'git -C /repo worktree remove --force "$wt" 2>/dev/null; rm -rf "$out"' EXIT
 (cd "$wt" && /venv/bin/python "$d/demo.py" "$wt" > "$out/demo0.log" 2>&1); echo "demo without change: exit=$?"
-git -C "$wt" apply "$d/patch.diff" || { echo "PATCH DOES NOT APPLY"; exit 2; }
+git -C "$wt" apply "$d/patch.diff" 2>/dev/null || git -C "$wt" apply --3way "$d/patch.diff" || { echo "PATCH DOES NOT APPLY"; exit 2; }
 (cd "$wt" && /venv/bin/python "$d/demo.py" "$wt" > "$out/demo1.log" 2>&1); echo "demo with change:    exit=$? $(tail -2 "$out/demo1.log" | tr '\n' ' ' | cut -c1-200)"
 echo "suite with change: $("$HERE/tools/suite.sh" "$wt" | tail -c 60)"
 for id in "$@"; do
